@@ -225,6 +225,49 @@ func run06(c drv.Case, res *drv.Result) {
 			got = append(got, b.ID)
 		}
 		sort.Strings(got)
+		// the same listing with a single worker (leftovers of interrupted uploads sit between committed bundles): it must
+		// return, and return the same bundles. A listing that makes no store call for 60 s and has not returned is stalled.
+		{
+			one := memstore.NewActor("observer-1")
+			type lr struct {
+				ids []string
+				err error
+			}
+			ch := make(chan lr, 1)
+			go func() {
+				xs, err := core.ListBundles("r", env.Stores(one), core.ConcurrentList(1), core.BatchSize(3))
+				var ids []string
+				for _, b := range xs {
+					ids = append(ids, b.ID)
+				}
+				sort.Strings(ids)
+				ch <- lr{ids, err}
+			}()
+			last, idle := -1, 0
+			var r1 lr
+			returned := false
+			for !returned {
+				select {
+				case r1 = <-ch:
+					returned = true
+				case <-time.After(time.Second):
+					n, _ := one.Calls()
+					if n == last {
+						idle++
+					} else {
+						last, idle = n, 0
+					}
+				}
+				if idle >= 60 {
+					res.Violate("listing-stalled", stage+"|"+where, "%s, crash %s: ListBundles with one worker has not returned and made no store call for 60 s (after %d calls); committed bundles %v", stage, where, last, comm)
+					return false
+				}
+			}
+			if r1.err != nil || strings.Join(r1.ids, ",") != strings.Join(comm, ",") {
+				res.Violate("visible-set-differs-from-committed", "single-worker|"+stage+"|"+where, "%s, crash %s: ListBundles(ConcurrentList(1), BatchSize(3)) = %v (err %v), bundles whose descriptor landed = %v", stage, where, r1.ids, r1.err, comm)
+				return false
+			}
+		}
 		if strings.Join(got, ",") != strings.Join(comm, ",") {
 			res.Violate("visible-set-differs-from-committed", stage+"|"+where, "%s, crash %s: ListBundles = %v, bundles whose descriptor landed = %v", stage, where, got, comm)
 			return false
